@@ -69,7 +69,7 @@ type c04Program struct {
 }
 
 var c04Fronts = []string{"info", "log", "check", "sugarw", "sugarf", "sugarln", "sugar", "child-with", "child-named", "child-lazy", "stdlog", "zapio",
-	"reflect", "reflect", "errors", "object", "child-reflect", "shared-reflect", "shared-reflect", "reflect-fail", "reflect-fail"}
+	"reflect", "reflect", "errors", "object", "child-reflect", "shared-reflect", "shared-reflect", "reflect-fail", "reflect-fail", "errors", "errors-fault"}
 
 // c04Obj is a nested marshaler carrying its goroutine and a padding.
 type c04Obj struct {
@@ -104,6 +104,10 @@ func c04CheckOwner(n *xnode, g int) string {
 			if kv.v.kind == "str" && strings.Trim(kv.v.s, letter) != "" {
 				return fmt.Sprintf("padding %q=%q on the entry of goroutine %d", kv.k, clipS(kv.v.s), g)
 			}
+		}
+		// any string marked "own:" carries nothing but its goroutine's letter, wherever it ends up
+		if kv.v.kind == "str" && strings.HasPrefix(kv.v.s, "own:") && strings.Trim(strings.SplitN(kv.v.s[4:], "\n", 2)[0], letter) != "" {
+			return fmt.Sprintf("value %q=%q on the entry of goroutine %d", kv.k, clipS(kv.v.s), g)
 		}
 		if e := c04CheckOwner(kv.v, g); e != "" {
 			return e
@@ -144,11 +148,12 @@ type c04Stream struct {
 	console bool
 	data    func() []byte
 	sink    *tornSink
+	only    func(g int) bool // goroutines whose entries reach this stream (nil = all)
 }
 
 func genC04Program(t *rapid.T) *c04Program {
 	p := &c04Program{
-		Topology: rapid.SampledFrom([]string{"lock", "combine", "file", "buffered", "tee"}).Draw(t, "topology"),
+		Topology: rapid.SampledFrom([]string{"lock", "combine", "file", "buffered", "tee", "shared-locked"}).Draw(t, "topology"),
 		BufSize:  rapid.SampledFrom([]int{64, 128, 256, 1024, 4096}).Draw(t, "bufSize"),
 		Procs:    rapid.SampledFrom([]int{1, 2, 4, 16}).Draw(t, "gomaxprocs"),
 	}
@@ -159,6 +164,10 @@ func genC04Program(t *rapid.T) *c04Program {
 		for i := 0; i < n; i++ {
 			switch rapid.IntRange(0, 9).Draw(t, "opKind") {
 			case 0:
+				if rapid.IntRange(0, 7).Draw(t, "stopInsteadOfSync") == 0 {
+					sc = append(sc, c04Op{Kind: "stop"}) // Stop of the buffered syncer while others keep logging
+					break
+				}
 				sc = append(sc, c04Op{Kind: "sync"})
 			case 1:
 				sc = append(sc, c04Op{Kind: "tick"})
@@ -182,7 +191,7 @@ func c04Run(t interface{ Fatalf(string, ...any) }, p *c04Program) (alternations 
 	jcfg := zapcore.EncoderConfig{TimeKey: "t", NameKey: "n", LevelKey: "l", CallerKey: "c", MessageKey: "m", EncodeLevel: zapcore.CapitalLevelEncoder,
 		EncodeTime: zapcore.RFC3339NanoTimeEncoder, EncodeCaller: zapcore.ShortCallerEncoder}
 	var streams []*c04Stream
-	var core zapcore.Core
+	var core, altCore zapcore.Core
 	var closers []func()
 	clk := &handClock{}
 	var bws *zapcore.BufferedWriteSyncer
@@ -218,6 +227,15 @@ func c04Run(t interface{ Fatalf(string, ...any) }, p *c04Program) (alternations 
 	case "buffered":
 		bws = &zapcore.BufferedWriteSyncer{WS: mkSink("Buffered(sink)", false), Size: p.BufSize, FlushInterval: time.Second, Clock: clk}
 		core = zapcore.NewCore(zapcore.NewJSONEncoder(jcfg), bws, zapcore.DebugLevel)
+	case "shared-locked":
+		// ONE locked syncer is used by a core directly and is also a member of a combined syncer under another
+		// core: every path to the raw sink must go through the same lock. Even goroutines log through the first
+		// core, odd ones through the second.
+		raw := mkSink("shared Lock(sink)", false)
+		lockedRaw := zapcore.Lock(raw)
+		core = zapcore.NewCore(zapcore.NewJSONEncoder(jcfg), lockedRaw, zapcore.DebugLevel)
+		altCore = zapcore.NewCore(zapcore.NewJSONEncoder(jcfg), zap.CombineWriteSyncers(lockedRaw, mkSink("combined second member", false)), zapcore.DebugLevel)
+		streams[len(streams)-1].only = func(g int) bool { return g%2 == 1 }
 	case "tee":
 		bws = &zapcore.BufferedWriteSyncer{WS: mkSink("tee console->Buffered", true), Size: p.BufSize, FlushInterval: time.Second, Clock: clk}
 		core = zapcore.NewTee(
@@ -228,6 +246,11 @@ func c04Run(t interface{ Fatalf(string, ...any) }, p *c04Program) (alternations 
 	lg := zap.New(core, zap.AddCaller())
 	// the shared context carries a reflected value: every derived encoder starts from one that has used its reflection buffer
 	shared := lg.With(zap.String("shared", "ctx"), zap.Reflect("rctx", map[string]int{"r": 1}))
+	lgAlt, sharedAlt := lg, shared
+	if altCore != nil {
+		lgAlt = zap.New(altCore, zap.AddCaller())
+		sharedAlt = lgAlt.With(zap.String("shared", "ctx"), zap.Reflect("rctx", map[string]int{"r": 1}))
+	}
 	want := make([]int, len(p.Scripts))
 	var wg sync.WaitGroup
 	var panics atomic.Value
@@ -240,6 +263,10 @@ func c04Run(t interface{ Fatalf(string, ...any) }, p *c04Program) (alternations 
 					panics.Store(fmt.Sprintf("goroutine %d panicked: %v", g, r))
 				}
 			}()
+			lg, shared := lg, shared
+			if g%2 == 1 {
+				lg, shared = lgAlt, sharedAlt
+			}
 			mine := shared.Named(fmt.Sprintf("g%d", g)).With(zap.Int("g", g))
 			sg := mine.Sugar()
 			std := zap.NewStdLog(mine)
@@ -282,8 +309,14 @@ func c04Run(t interface{ Fatalf(string, ...any) }, p *c04Program) (alternations 
 				case "child-reflect":
 					mine.With(zap.Reflect("cr", map[string]any{"rg": g})).Warn(tok, zap.Reflect("rv", []any{map[string]int{"rg": g}}))
 				case "errors":
-					pad := strings.Repeat(string(rune('a'+g%26)), o.Pad%97)
-					mine.Error(tok, zap.Errors("errs", []error{fmt.Errorf("%s", pad), nil, verboseErr{pad}}), zap.NamedError("ep", fmt.Errorf("%s", pad)))
+					pad := "own:" + strings.Repeat(string(rune('a'+g%26)), o.Pad%97)
+					mine.Error(tok, zap.Errors("errs", []error{fmt.Errorf("%s", pad), nil, verboseErr{pad}, fmt.Errorf("%s", pad)}), zap.NamedError("eown", fmt.Errorf("%s", pad)),
+						zap.NamedError("grp", groupErr{pad, []error{fmt.Errorf("%s", pad), fmt.Errorf("%s", pad)}}))
+				case "errors-fault":
+					// an error group with a cause whose Error method panics: the failure is contained in this entry...
+					pad := "own:" + strings.Repeat(string(rune('a'+g%26)), 3)
+					mine.Error(tok, zap.NamedError("grp", groupErr{pad, []error{fmt.Errorf("%s", pad), panicErr{"cause panics"}, (*ptrErr)(nil)}}),
+						zap.Errors("errs", []error{fmt.Errorf("%s", pad), panicErr{"element panics"}}))
 				case "object":
 					mine.Info(tok, zap.Object("obj", c04Obj{g, strings.Repeat(string(rune('a'+g%26)), o.Pad)}), zap.Objects("objs", []c04Obj{{g, ""}, {g, "x"[:0]}}))
 				case "stdlog":
@@ -292,6 +325,11 @@ func c04Run(t interface{ Fatalf(string, ...any) }, p *c04Program) (alternations 
 					_, _ = zw.Write([]byte(tok + "\n"))
 				case "sync":
 					_ = lg.Sync()
+					emitted = false
+				case "stop":
+					if bws != nil {
+						_ = bws.Stop()
+					}
 					emitted = false
 				case "tick":
 					if ch := clk.channel(); ch != nil {
@@ -326,6 +364,7 @@ func c04Run(t interface{ Fatalf(string, ...any) }, p *c04Program) (alternations 
 		t.Fatalf("%v", v)
 	}
 	_ = lg.Sync()
+	_ = lgAlt.Sync()
 	if bws != nil {
 		_ = bws.Stop()
 	}
@@ -424,6 +463,12 @@ func c04Run(t interface{ Fatalf(string, ...any) }, p *c04Program) (alternations 
 			lastG = g
 		}
 		for g := range next {
+			if st.only != nil && !st.only(g) {
+				if next[g] != 0 {
+					t.Fatalf("%s: %d entries of goroutine %d arrived on a stream its logger does not write to", st.name, next[g], g)
+				}
+				continue
+			}
 			if next[g] != want[g] {
 				t.Fatalf("%s: goroutine %d: %d of %d accepted entries are in the sink", st.name, g, next[g], want[g])
 			}
